@@ -50,6 +50,14 @@ CHECKS = [
          technique='TLC evaluates Omen!Level (single TLA+ definition) on the level tables exported from the trainer memory and compares it with the levels reported by the real trainer third pass, the real OmenScorer and the real Markov generator for every candidate string (TrOmen clauses C11_*), plus omen_pws_per_level against the tally of Level',
          text='Agreement of three implementations with one TLA+ definition on real trainings (several lists incl. rare initial n-grams, n-gram sizes 2-5, alphabet sizes) and candidate strings incl. out-of-alphabet characters and boundary lengths.',
          note='Exploration-grade: inputs are sampled trainings. The smoothing logarithm is not modelled (level tables are data). UTF-8 rulesets (other encodings are C07).'),
+    dict(pid='C12', cat=MC, design='5/C12',
+         technique='TLA+ Session.tla (Main || Kbd processes with program counters, keyboard scripts incl. EOF, .sav/.omn store, reload) model-checked by TLC over all interleavings; the real keypress thread and the real CrackingSession.run are run in real threads stopped at gates (input, sleep, status, set_exit / pop, read_alive, read_exit, emit, save) and released under systematic (keyboard burst at every step) and random schedules; the real script is run under every stdin condition (open pipe, EOF, /dev/null, closed fd, pty, status requests); all recorded histories (session + its resume) are validated by TLC against TrSession',
+         text='Every interleaving of a small session is explored on the model; on the code, deterministic gate-to-gate schedules place the keyboard thread\'s steps at every position of the main loop, and the recorded streams are accepted only if they are an unaltered contiguous part of the expected stream, not shortened without a quit, stopped at a legal point, and resumable to exactly the remainder.',
+         note='Gates are installed from outside (no source hooks); a thread counts as dead once its function returned. Rulesets without probability ties (ties are C08). Status-report text is not checked.'),
+    dict(pid='C15', cat=MC, design='5/C15',
+         technique='TLC on Session.tla (OMEN cut, stale option, last pre-terminal) + real CrackingSession.run histories that quit inside a Markov level at every position j followed by further quit/resume cycles (inside the remainder, outside OMEN, inside the replay) validated by TrSession; real MarkovCracker save_session/load_session at every cut j validated by TrOmen (resume = suffix of the uninterrupted sequence)',
+         text='All cut positions inside each Markov level of generated rulesets, with later quits, are run on the real session code with the real pickle files; TLC accepts a history only if each session continues exactly where the previous one stopped (C08\'s tied-group replay of a last Markov level allowed).',
+         note='The scripted keyboard thread sets should_exit after the n-th printed guess. Fresh Optimizer after resume.'),
 ]
 
 NOT_YET = {
